@@ -168,6 +168,11 @@ class ExprMixin(object):
             owner, fn = self.src.lookup_method(cname, attr)
             if owner:
                 return st, SV(None, "callable", py=("method", cname, attr, None))
+            gkey = "%s.%s" % (cname.split("@")[0], attr)
+            if gkey in self.C.GLOBALS:
+                gl = self.C.GLOBALS[gkey]
+                if isinstance(gl, tuple) and gl[0] == "singleton":
+                    return st, self.singleton(gl[1])
             owner, cexpr = self.src.lookup_const(cname, attr)
             if owner:
                 return self.eval_class_const(st, owner, cexpr, acc)
